@@ -203,6 +203,11 @@ pub fn cases(tier: &str, seed: u64) -> Vec<Case> {
             let n_reps = if KIND_NAMES[kind] == "IPSECKEY" { reps * 8 } else { reps };
             for rep in 0..n_reps {
                 g.share = 7;
+                // two repetitions per type with names built from one and the same label, and an encoder that points whenever
+                // it can: every name after the first owner ends in a pointer, in every type (also those whose senders must
+                // not compress) - independently of what the random draws of the other repetitions happen to share
+                let forced = rep == 1 || rep == 4;
+                let saved_pool = if forced { g.share = 8; Some(std::mem::replace(&mut g.pool, vec![b"same".to_vec()])) } else { None };
                 // the last two repetitions: every name inside the RDATA is the root name, once in place (a single
                 // zero octet: the shortest name there is) and once with whatever compression the encoder picks
                 g.root_only = rep + 2 >= n_reps;
@@ -211,6 +216,7 @@ pub fn cases(tier: &str, seed: u64) -> Vec<Case> {
                 if matches!(rd, RData::OPT(_)) { continue; }
                 let first = ResourceRecord::new(g.name(), CLASS::IN, 1, RData::NS(NS(g.name())));
                 let rr = ResourceRecord::new(g.name(), CLASS::IN, 5, rd);
+                if let Some(pool) = saved_pool { g.pool = pool; }
                 // two times in three the message also asks a question: a fresh name, or the first owner's name in another
                 // spelling of its letters (names are carried as they were sent; only comparisons ignore case)
                 let qtxt = match if rep % 7 == 5 { 3 } else { rep % 3 } {
@@ -232,7 +238,7 @@ pub fn cases(tier: &str, seed: u64) -> Vec<Case> {
                     }
                 };
                 let ptxt = format!("P 7 32768 0 0 o0 {} 2 {} {} 0 0", qtxt, text::rr(&first), text::rr(&rr));
-                let (bytes, _) = if rep % 3 == 2 || rep + 2 == n_reps { refenc::encode_packet(&ptxt, Compress::Never, false, None) } else { refenc::encode_packet(&ptxt, Compress::Random(&mut r2, 7), false, None) };
+                let (bytes, _) = if forced { refenc::encode_packet(&ptxt, Compress::Random(&mut r2, 8), false, None) } else if rep % 3 == 2 || rep + 2 == n_reps { refenc::encode_packet(&ptxt, Compress::Never, false, None) } else { refenc::encode_packet(&ptxt, Compress::Random(&mut r2, 7), false, None) };
                 let bb = bytes.clone();
                 watch(&format!("parse {}", text::hex(&bytes)));
                 let out = guard(move || match Packet::parse(&bb) { Ok(p) => format!("ok {}", text::packet(&p)), Err(_) => "err".to_string() });
